@@ -173,6 +173,10 @@ SHARED_RESULT_FUNCTIONS = {
     'numqi.group._symmetric.get_sym_group_num_irrep',
     'numqi.group._symmetric.get_symmetric_group_cayley_table',
     'numqi.matrix_space._clebsch_gordan.get_clebsch_gordan_coeffient',
+    # error / operator lists whose entries are the module-level constants numqi.gate.X / Y / Z themselves
+    'numqi.qec._qecc.parse_simple_pauli',
+    'numqi.qec._internal.make_error_list',
+    'numqi.qec._internal.make_asymmetric_error_set',
 }
 
 
